@@ -345,7 +345,8 @@ WalkStmt(s, st, sigma, frozen, af, md) ==
                  Target(k) == IF sel = <<>> THEN to \o Suffix(k, from) ELSE NewName(k)
                  alias == [k2 \in {Target(k) : k \in exported} |-> s3.tab[CHOOSE k \in exported : Target(k) = k2]]
                  clash == \E k2 \in DOMAIN alias : k2 \in DOMAIN s3.tab /\ k2 \notin s3.aliases /\ s3.tab[k2] # alias[k2]
-                 missing == {i \in 1..Len(sel) : from \o sel[i].name \notin DOMAIN s3.tab}
+                 (* a name that exists only as a scope node so far (a block label before the first segment exists) can be exported *)
+                 missing == {i \in 1..Len(sel) : from \o sel[i].name \notin DOMAIN s3.tab /\ (frozen \/ from \o sel[i].name \notin s3.nodes)}
                  s4 == IF missing = {} \/ frozen THEN s3
                        ELSE [s3 EXCEPT !.undef = @ \cup {[scope |-> st.scope, name |-> sel[i].name, sid |-> s.sid] : i \in missing}]
              IN IF clash THEN Err(s4, [k |-> "importclash", sid |-> s.sid])
